@@ -80,3 +80,89 @@ func VerifC03GrpcTx() {
 	}
 	verifReach("end")
 }
+
+// ---------------------------------------------------------------------------------------------
+// Several epochs loaded, index reads may fail (param "faults" = 1).
+//
+// With several epochs the sig-exists pre-filter (64-bit hashes) is what keeps signatures that an
+// epoch does not archive away from that epoch's keyless sig-to-cid index (24-bit hashes). The part
+// of C03 decided here: the epoch search trusts a sig-to-cid answer only for an epoch whose
+// pre-filter positively confirmed the signature; a failed read is not a confirmation.
+
+// verifC03ArchivedIn: branch-free "epoch e archives a transaction with first signature q".
+func verifC03ArchivedIn(e *Epoch, q solana.Signature) uint64 {
+	return verifC03SigArchived([]*Epoch{e}, q)
+}
+
+// verifC03Health: healthyHome = some epoch's pre-filter confirmed the signature (exact: it archives it)
+// and no confirming epoch had a failing sig-to-cid read (the search may pick any confirming epoch);
+// anyFault = some index read of the request failed.
+func verifC03Health(eps []*Epoch) (healthyHome, anyFault bool) {
+	confirmed, confirmedFaulty := false, false
+	for _, e := range eps {
+		st := verifC03Stores[e]
+		if st.preFilter == verifC03PreYes {
+			confirmed = true
+			if st.idxFault {
+				confirmedFaulty = true
+			}
+		}
+		if st.preFilter == verifC03PreFault || st.idxFault {
+			anyFault = true
+		}
+	}
+	return confirmed && !confirmedFaulty, anyFault
+}
+
+// C03.sigsearch — the real MultiEpoch.findEpochNumberFromSignature (behind JSON-RPC getTransaction,
+// gRPC GetTransaction and /api/v1/sig-to-cid) with several epochs, every schedule of the per-epoch
+// jobs, index false hits and failing index reads:
+//   - an epoch is named only if its own pre-filter answered yes, hence only if it archives the
+//     signature (never on the strength of the keyless index alone);
+//   - ErrNotFound only if no loaded epoch archives the signature;
+//   - a signature archived in an epoch whose reads all succeed is found, whatever the other epochs do.
+func VerifC03SigSearch() {
+	ne := verifParam("epochs", 2)
+	multi, eps := verifC03Multi(ne, 0, 1+verifChoice("ntxs", verifParam("maxtxs", 1)))
+	q := verifC03Sig("sig")
+	num, err := multi.findEpochNumberFromSignature(context.Background(), q)
+	healthyHome, _ := verifC03Health(eps)
+	anyArchived := verifC03SigArchived(eps, q)
+	if err == nil {
+		e := multi.epochs[num]
+		verifAssert(e != nil, "C03.sigsearch: the search names an epoch that is not loaded")
+		verifAssert(verifC03ArchivedIn(e, q) == 1, "C03.sigsearch: the search names an epoch that does not archive the signature")
+	} else {
+		if errors.Is(err, ErrNotFound) {
+			verifAssert(anyArchived == 0, "C03.sigsearch: not-found for a signature that a loaded epoch archives")
+		}
+		verifAssert(!healthyHome, "C03.sigsearch: a signature archived in an epoch whose index reads all succeeded is not found")
+	}
+	verifReach("end")
+}
+
+// C03.grpctxf — the same configuration end to end through the real gRPC MultiEpoch.GetTransaction:
+// never a transaction with another signature; a signature no epoch archives is answered with an error
+// (NotFound when no read failed); a signature archived in an epoch whose reads all succeed is served
+// with its own transaction, whatever false hits or read failures the other epochs have.
+func VerifC03GrpcTxFaults() {
+	ne := verifParam("epochs", 2)
+	multi, eps := verifC03Multi(ne, 0, 1+verifChoice("ntxs", verifParam("maxtxs", 1)))
+	q := verifC03Sig("sig")
+	resp, err := multi.GetTransaction(context.Background(), &old_faithful_grpc.TransactionRequest{Signature: q[:]})
+	archived := verifC03SigArchived(eps, q)
+	healthyHome, anyFault := verifC03Health(eps)
+	if err != nil {
+		if archived == 0 && !anyFault {
+			verifAssert(strings.Contains(err.Error(), "code = NotFound"), "C03.grpctxf: signature that is not archived is not answered with NotFound")
+		}
+		verifAssert(!healthyHome, "C03.grpctxf: a signature archived in an epoch whose index reads all succeeded is answered with an error")
+	} else {
+		verifAssert(resp != nil && resp.Transaction != nil, "C03.grpctxf: nil response without error")
+		raw := resp.Transaction.Transaction
+		verifAssert(len(raw) >= 65 && raw[0] == 1, "C03.grpctxf: malformed transaction bytes in the response")
+		verifAssert(bytes.Equal(raw[1:65], q[:]), "C03.grpctxf: response carries a transaction with a different signature")
+		verifAssert(archived == 1, "C03.grpctxf: a transaction is returned for a signature that is not archived")
+	}
+	verifReach("end")
+}
